@@ -118,6 +118,8 @@ CONSTANTS KindSet,     \* subset of {"post", "sa"}
           MSet,        \* stream lengths
           MRSet,       \* retry budgets
           MaxCuts,     \* how many bodies the environment may cut
+          ClassSet,    \* position classes the environment may cut at (see ClassesOf; "bnd" = event boundary)
+          AnswerSet,   \* what a reconnect attempt may be answered with: subset of {"terr", "ok", "5xx", "404"}
           FixScanner,  \* at end of input an incomplete event is discarded
           FixCursor,   \* the resume cursor survives from one body to the next
           Fix5xx       \* a transient status on reconnect is retried like a transport error
@@ -184,11 +186,12 @@ EndRec(es) == [n |-> Len(es), cls |-> "bnd", knd |-> "eof", al |-> None]
 
 CutChoices(es) ==
   {[n |-> n, cls |-> "bnd", knd |-> k, al |-> None] :
-       n \in 0..(IF cfg.kind = "post" THEN Len(es) - 1 ELSE Len(es)), k \in {"err", "eof"}}
+       n \in (IF "bnd" \in ClassSet THEN 0..(IF cfg.kind = "post" THEN Len(es) - 1 ELSE Len(es)) ELSE {}),
+       k \in {"err", "eof"}}
   \cup UNION {UNION {{[n |-> n, cls |-> c, knd |-> k, al |-> a] :
                          k \in {"err", "eof"},
                          a \in (IF c = "id" THEN {Bogus} \cup Aliases(es[n + 1].cur) ELSE {None})} :
-                     c \in ClassesOf(es[n + 1])} : n \in 0..(Len(es) - 1)}
+                     c \in ClassesOf(es[n + 1]) \cap ClassSet} : n \in 0..(Len(es) - 1)}
 
 \* what processStream makes of a body cut like this
 \*   last: lastEventID at the end; add: messages pushed; end: "resp" (own response seen),
@@ -273,7 +276,8 @@ Body ==
                      /\ UNCHANGED <<prev, failed, outcome>>
   /\ att' = (IF pc' = "recon" THEN 1 ELSE att)     \* connectSSE(initial = false) starts at attempt 1
 
-Answers == IF last = Bogus THEN {"terr", "400"} ELSE {"terr", "ok", "5xx", "404"}
+\* an id the server never issued cannot be served: 400 Bad Request (as the SDK's own server answers)
+Answers == IF last = Bogus THEN ({"terr"} \cap AnswerSet) \cup {"400"} ELSE AnswerSet
 Closed(o) == IF o = <<>> THEN recon ELSE Append(recon, [sent |-> last, outs |-> o])
 
 \* one iteration of connectSSE's loop (or its exit), then checkResponse
